@@ -99,6 +99,12 @@ def decode_message(msg_bytes, time=0, check=True):
         if end != SYSEX_END:
             raise ValueError(f'invalid sysex end byte {end!r}')
 
+    elif len(data) != spec['length'] - 1:
+        # The special case decoders below index into data without
+        # checking its length.
+        raise ValueError(
+            'wrong number of bytes for {} message'.format(spec['type']))
+
     if check:
         check_data(data)
 
